@@ -127,7 +127,9 @@ class C03(Check):
             # below the integer ratio in floating point
             dts = float(f'{m * dt:.12g}')
         dts_type = 'float'
-        if stratum in ('S-main', 'S-heun', 'S-adaptive', 'S-torch', 'S-jax', 'S-fortran') and rng.random() < 0.12:
+        # (fixed-step solvers only: these runs cover tens of time units, for which the accuracy bound of the adaptive laws -
+        #  calibrated on short runs, no allowance for error growth in unstable models - does not hold on the unchanged tree)
+        if stratum in ('S-main', 'S-heun', 'S-torch', 'S-jax', 'S-fortran') and solver in ('euler', 'heun') and rng.random() < 0.15:
             # a sampling step that is a whole number of time units, typed by the user as an int / numpy scalar
             dt = rng.choice([0.5, 0.25, 0.125])
             dts = float(rng.choice([1, 2]))
